@@ -292,9 +292,19 @@ class Run:
                 probe = type("CallableObject", (), {"__call__": scall, **extra})()
         try:
             if route == "direct":
-                self.ctx.add_teardown_callback(probe, cb["pass_exception"])
+                if cb["id"] % 2:
+                    self.ctx.add_teardown_callback(probe, pass_exception=cb["pass_exception"])
+                elif not cb["pass_exception"] and cb["id"] % 4 == 0:
+                    self.ctx.add_teardown_callback(probe)
+                else:
+                    self.ctx.add_teardown_callback(probe, cb["pass_exception"])
             elif route == "shortcut":
-                add_teardown_callback(probe, cb["pass_exception"])
+                if cb["id"] % 2:
+                    add_teardown_callback(probe, pass_exception=cb["pass_exception"])
+                elif not cb["pass_exception"] and cb["id"] % 4 == 0:
+                    add_teardown_callback(probe)
+                else:
+                    add_teardown_callback(probe, cb["pass_exception"])
             elif route == "resource":
                 n = cb.get("ntypes", 0)
                 if n == 0:
